@@ -260,6 +260,12 @@ func (s *store) Get(k string) ([]byte, error) {
 		return nil, fmt.Errorf("failed to get DB entry: %w", err)
 	}
 
+	if retrievedDBEntry.Value == nil {
+		// Put refuses nil values, so the entry holds an empty value (left out by the JSON encoding of the entry).
+		// Callers (GetBulk, wrappers) read a nil value as "no data".
+		return []byte{}, nil
+	}
+
 	return retrievedDBEntry.Value, nil
 }
 
